@@ -49,6 +49,8 @@ def run(P, rep, tier):
     part('R09.9', lambda: r_stringize(P, u, rep))
     if r is not None:
         part('R09.8', lambda: r_builtins(P, u, rep, r[0], r[1]))
+        part('R09.10', lambda: r_lookup(P, u, rep))
+        part('R09.10', lambda: r_offer(P, u, rep))
 
 
 # ------------------------------------------------------------------ expand_macro ---
@@ -76,7 +78,9 @@ def r_expand(P, u, rep):
     rep.rule('R09.1', 'expand_macro tests hideset_contains(tok->hideset, tok->loc, tok->len) before anything else and does not expand a token whose own name is in its hide set', floor=4)
     rep.rule('R09.2', 'on every path that expands a non-builtin macro, all tokens of the result (body, substituted arguments, pasted tokens) get hideset ∪ {macro name}: add_hideset is applied to the finished replacement, with (invoking token\'s set) for object-like and (macro token ∩ closing paren) for function-like macros; the replacement is followed by the token after the invocation', floor=6)
     rep.rule('R09.4', 'a function-like macro name not followed by "(" is not expanded: the test dominates read_macro_args', floor=4)
+    rep.rule('R09.10', 'an identifier is refused expansion for exactly three reasons: its name is in its hide set, no macro of that name is defined (find_macro answers NULL exactly for non-identifiers and names hashmap_get2 does not know), or it names a function-like macro and the next token is not "(" - white space and line breaks (at_bol/has_space) never decide; preprocess2 offers every token of its stream to expand_macro before anything else; read_macro_args rejects an invocation only through skip()', floor=5)
     n_obj = n_fun = n_handler = 0
+    n_refuse = {}
     for ctx, out, rest in paths:
         D = Desc(it, ctx)
         calls = [e for e in ctx.events if e[0] in ('call', 'icall')]
@@ -91,6 +95,10 @@ def r_expand(P, u, rep):
                 rep.ob('R09.1', '%s:%s:guard-missing' % (U, fn), False,
                        'a path of expand_macro looks the macro up or expands it without consulting the token\'s hide set: `#define f f` would expand forever',
                        where=where, facts=facts)
+            elif out[0] == 'ret':
+                ok10, construct, msg = _refusal_reason(it, u, ctx, calls, D)
+                n_refuse[construct] = n_refuse.get(construct, 0) + 1
+                rep.ob('R09.10', '%s:%s:%s' % (U, fn, construct), ok10, msg, where=where, facts=facts)
             continue
         g = calls[hc[0]]
         args = [show(D.of(a)) for a in g[2]]
@@ -116,6 +124,10 @@ def r_expand(P, u, rep):
                    'expand_macro answers "not a macro" but has already replaced the caller\'s token', where=where, facts=facts)
             if 'read_macro_args' in names:
                 rep.ob('R09.4', '%s:%s:args-read-but-not-expanded' % (U, fn), False, 'the argument list is consumed on a path that does not expand', where=where, facts=facts)
+            if out[0] == 'ret':
+                ok10, construct, msg = _refusal_reason(it, u, ctx, calls, D)
+                n_refuse[construct] = n_refuse.get(construct, 0) + 1
+                rep.ob('R09.10', '%s:%s:%s' % (U, fn, construct), ok10, msg, where=where, facts=facts)
             continue
         # ---- expanding paths
         if '<handler>' in names:
@@ -205,7 +217,183 @@ def r_expand(P, u, rep):
         rep.undecided('R09.2', '%s:%s:no-funclike-path' % (U, fn), 'no path expands a function-like macro', where=where)
     if n_handler == 0:
         rep.undecided('R09.8', '%s:%s:no-handler-path' % (U, fn), 'no path applies a dynamic macro handler', where=where)
+    for need in ('refusal-no-such-macro', 'refusal-funclike-name-without-paren'):
+        if not n_refuse.get(need):
+            rep.undecided('R09.10', '%s:%s:no-%s-path' % (U, fn, need), 'no path of expand_macro answers "not an invocation" for the reason "%s" (shape not recognised)' % need[8:], where=where)
     return it, paths
+
+
+def _refusal_reason(it, u, ctx, calls, D):
+    """why a path of expand_macro whose hide-set test was negative answers false: (legitimate?, construct, message)"""
+    ident = u.enums.get('TK_IDENT')
+    kv = ctx.tok.fields.get('kind')
+    if isinstance(kv, View) and ident not in kv.cell.cands:
+        return True, 'refusal-not-an-identifier', ''
+    if isinstance(kv, int) and kv != ident:
+        return True, 'refusal-not-an-identifier', ''
+    fm = [e for e in calls if e[0] == 'call' and e[1] == 'find_macro']
+    m = it.settle(fm[-1][4]) if fm else None
+    if fm and isinstance(m, int) and m == 0:
+        ok = [show(D.of(a)) for a in fm[-1][2]] == ['tok']
+        return ok, 'refusal-no-such-macro', 'the macro is looked up with find_macro(%s) instead of find_macro(tok)' % ', '.join(show(D.of(a)) for a in fm[-1][2])
+    tail = 'C11 6.10.3p10: the name of a function-like macro followed by "(" as the next preprocessing token is an invocation, and new-line is ordinary white space inside it; an object-like or dynamic macro name is always replaced. The decisions of this path: %s' % (ctx.trail,)
+    if not isinstance(m, Obj):
+        return False, 'refused-before-lookup', 'a token is answered "not a macro" although its name is not hidden and find_macro was not asked (or its answer not looked at): a defined macro stays unexpanded. ' + tail
+    h = m.fields.get('handler')
+    if h is not None and 0 in ctx.neq.get(('sym', getattr(h, 'name', None)), ()):
+        return False, 'dynamic-macro-refused', 'a dynamic macro (m->handler set) is not expanded. ' + tail
+    ol = it.settle(m.fields['is_objlike']) if 'is_objlike' in m.fields else None
+    if not (isinstance(ol, int) and ol == 0):
+        return False, 'objlike-macro-refused' if ol == 1 else 'refused-without-looking-at-macro-kind', 'a defined macro that is %s is not expanded. ' % ('object-like' if ol == 1 else 'not known to be function-like') + tail
+    eqs = [(e, it.settle(e[4])) for e in calls if e[0] == 'call' and e[1] == 'equal' and [show(D.of(x)) for x in e[2]] == ['tok.next', '(']]
+    if any(isinstance(r, int) and r == 0 for e, r in eqs):
+        return True, 'refusal-funclike-name-without-paren', ''
+    if any(isinstance(r, int) and r != 0 for e, r in eqs):
+        return False, 'funclike-refused-although-paren-follows', 'a function-like macro name whose next token IS "(" is treated as an ordinary identifier because of a further condition: the invocation silently becomes a call of a same-named function (or a syntax error). ' + tail
+    return False, 'funclike-refused-without-paren-test', 'a function-like macro name is treated as an ordinary identifier on a path that never found the next token to differ from "(". ' + tail
+
+
+def r_lookup(P, u, rep):
+    """find_macro: NULL without asking the table only for a token that is not an identifier; otherwise the table's answer for the token's spelling"""
+    fn = 'find_macro'
+    if fn not in u.functions:
+        raise AnalysisBroken('anchor %s vanished' % fn)
+    ident = u.enums.get('TK_IDENT')
+    callees = set(c.callee() for c in u.fn(fn).walk() if c.kind == 'CallExpr' and c.callee())
+    look = sorted(c for c in callees if c.startswith('hashmap_get'))
+    if not look or ident is None:
+        raise AnalysisBroken('find_macro no longer consults the macro table through hashmap_get*')
+    it = PInterp(P, u, {'opaque': look, 'track_stores': True})
+
+    def mk(ctx):
+        ctx.tok = Obj('Token', lazy=True, label='tok')
+        return [ctx.tok]
+    where = '%s:%d' % (U, u.fn(fn).line)
+    A = Agg(rep)
+    n_tab = 0
+    for ctx, out in it.explore(fn, mk, max_paths=2000):
+        if out[0] != 'ret':
+            A.ob('R09.10', '%s:%s:lookup-aborts' % (U, fn), False, 'find_macro does not return on a path (%s): decisions %s' % (out[1], ctx.trail), where, {'path': ctx.trail})
+            continue
+        D = Desc(it, ctx)
+        d = D.of(out[1])
+        facts = {'path': ctx.trail, 'returns': show(d)}
+        kv = ctx.tok.fields.get('kind')
+        may_ident = not (isinstance(kv, View) and ident not in kv.cell.cands)
+        if d[0] == 'call' and d[1] in look:
+            n_tab += 1
+            a = [show(x) for x in d[2]]
+            A.ob('R09.10', '%s:%s:table-asked-for-token-spelling' % (U, fn), a[-2:] == ['tok.loc', 'tok.len'] and a[0] == 'g:macros',
+                 'the macro table is asked with (%s) instead of (&macros, tok->loc, tok->len)' % ', '.join(a), where, facts)
+            continue
+        if not may_ident:
+            A.ob('R09.10', '%s:%s:non-identifier-is-no-macro' % (U, fn), isinstance(it.settle(out[1]), int) and it.settle(out[1]) == 0,
+                 'find_macro returns %s for a token that is not an identifier' % show(d), where, facts)
+            continue
+        A.ob('R09.10', '%s:%s:identifier-answered-without-table' % (U, fn), False,
+             'find_macro answers %s for a token that may be an identifier without the answer of the macro table: a defined macro is not found (decisions: %s) - white space, line position or any other property of the token must not decide whether a name is a macro' % (show(d), ctx.trail), where, facts)
+    A.flush()
+    if n_tab == 0:
+        rep.undecided('R09.10', '%s:%s:no-table-path' % (U, fn), 'no path of find_macro returns the macro table\'s answer', where=where)
+
+
+def _explore_caught(it, u, fname, mk, max_paths):
+    """Interp.explore, but a construct the interpreter cannot follow ends that one path as ('unsupported', text)"""
+    from ..interp import NeedChoice, Infeasible, Ctx, Unsupported
+    fn = u.functions.get(fname)
+    out = []
+    stack = [[]]
+    while stack:
+        dec = stack.pop()
+        ctx = Ctx(dec)
+        it.ctx = ctx
+        try:
+            v = it.call_fn(u, fn, mk(ctx))
+            out.append((ctx, ('ret', v)))
+        except NeedChoice as e:
+            for a in range(e.n - 1, -1, -1):
+                stack.append(dec + [a])
+        except Infeasible:
+            pass
+        except NoReturn as e:
+            out.append((ctx, ('noreturn', e.fn, e.args_, e.line)))
+        except (Unsupported, AnalysisBroken) as e:
+            out.append((ctx, ('unsupported', str(e))))
+        if len(out) + len(stack) > max_paths:
+            raise AnalysisBroken('path explosion in %s (> %d)' % (fname, max_paths))
+    return out
+
+
+def r_offer(P, u, rep):
+    """preprocess2: the first thing done with every token of the stream is expand_macro(&tok, tok)"""
+    fn = 'preprocess2'
+    if fn not in u.functions or 'expand_macro' not in u.functions:
+        raise AnalysisBroken('anchor %s vanished' % fn)
+    ecalls = u.fn(fn).calls('expand_macro')
+    loop = None
+    if ecalls:
+        loop = next((a for a in ecalls[0].ancestors() if a.kind in ('WhileStmt', 'ForStmt', 'DoStmt')), None)
+    if loop is None:
+        rep.undecided('R09.10', '%s:%s:offer-shape' % (U, fn), 'preprocess2 no longer calls expand_macro from inside its token loop', where='%s:%d' % (U, u.fn(fn).line))
+        return
+    loop_body = loop.inner[0] if loop.kind == 'DoStmt' else loop.inner[-1]
+    import re
+    callees = set(c.callee() for c in u.fn(fn).walk() if c.kind == 'CallExpr' and c.callee())
+    inline = set(x for x in ('is_hash',) if x in u.functions)
+    lits = literals_compared(u.fn(fn))
+    for h in inline:
+        callees |= set(c.callee() for c in u.fn(h).walk() if c.kind == 'CallExpr' and c.callee())
+        lits += [x for x in literals_compared(u.fn(h)) if x not in lits]
+    classes = lits + [OTHER]
+    eof, ident = u.enums.get('TK_EOF'), u.enums.get('TK_IDENT')
+
+    def cut(it_, ctx, n, args):
+        first = len(args) == 2 and isinstance(args[0], _Ref) and it_.settle(args[1]) is ctx.tok
+        raise NoReturn('<expand_macro:%s>' % ('first' if first else 'other'), args, n.line)
+
+    def foreign(name):
+        def h(it_, ctx, n, args):
+            raise NoReturn('<foreign:%s>' % name, args, n.line)
+        return h
+    cuts = {c: foreign(c) for c in callees - inline - {'equal', 'expand_macro', 'error', 'error_tok', 'error_at'}}
+    cuts['expand_macro'] = cut
+
+    class LI(PInterp):
+        def exec(self, s_, env):
+            if s_ is loop_body:
+                self.ctx.iterations = getattr(self.ctx, 'iterations', 0) + 1
+                if self.ctx.iterations > 1:
+                    raise NoReturn('<next-token>', [], s_.line)     # one whole iteration done without the offer
+            return super().exec(s_, env)
+    it = LI(P, u, {'cut': cuts, 'models': {'equal': make_equal_model(classes, False)}, 'loop_limit': 2, 'track_stores': True})
+
+    def mk(ctx):
+        ctx.tok = Obj('Token', lazy=True, label='tok')
+        return [ctx.tok]
+    where = '%s:%d' % (U, u.fn(fn).line)
+    A = Agg(rep)
+    n_ok = 0
+    for ctx, out in _explore_caught(it, u, fn, mk, 4000):
+        kv = ctx.tok.fields.get('kind')
+        if isinstance(kv, View) and list(kv.cell.cands) == [eof]:
+            continue        # empty stream
+        facts = {'path': ctx.trail}
+        if out[0] == 'noreturn' and out[1] == '<expand_macro:first>':
+            n_ok += 1
+            A.ob('R09.10', '%s:%s:every-token-offered-to-expand_macro' % (U, fn), True, '', where, facts)
+            continue
+        cl = cls_of(ctx.tok)
+        if (isinstance(kv, View) and ident not in kv.cell.cands) or (cl is not None and not any(c == OTHER or re.match(r'^[A-Za-z_]\w*$', c) for c in cl)):
+            continue        # established not to be an identifier: cannot name a macro
+        if out[0] == 'unsupported' or (out[0] == 'noreturn' and str(out[1]).startswith('<foreign:')):
+            rep.undecided('R09.10', '%s:%s:offer-not-followed' % (U, fn), 'preprocess2 hands its first token (which may be an identifier) to %s before offering it to expand_macro; the rule cannot follow that' % (out[1],), where=where)
+            continue
+        how = {'ret': 'returns'}.get(out[0], 'goes on to the next token' if out[1] == '<next-token>' else 'goes on to %s' % (out[1],))
+        A.ob('R09.10', '%s:%s:token-not-offered-to-expand_macro' % (U, fn), False,
+             'preprocess2 %s without having called expand_macro(&tok, tok) on the first token of a non-empty stream although that token may be an identifier (decisions: %s): a macro name at that position is passed through unexpanded' % (how, ctx.trail), where, facts)
+    A.flush()
+    if n_ok == 0:
+        rep.undecided('R09.10', '%s:%s:no-offer-path' % (U, fn), 'no path of preprocess2 reaches expand_macro with its first token', where=where)
 
 
 def r_subst(P, u, rep):
@@ -512,6 +700,13 @@ def r_args(P, u, rep):
     nret = 0
     for ctx, out in it.explore(fn, mk):
         if out[0] != 'ret':
+            # skip() (cut: assumed to succeed) is the only place where the argument grammar is enforced
+            msg = out[2][1] if len(out) > 2 and len(out[2]) > 1 and isinstance(out[2][1], str) else str(out[1])
+            missing = [e for e in ctx.events if e[0] == 'call' and e[1] == 'equal' and len(e[2]) == 2 and e[2][1] in (')', ',') and it.settle(e[4]) == 0]
+            if missing:
+                continue    # a diagnostic of its own for a missing separator / closing parenthesis
+            A.ob('R09.10', '%s:%s:rejects(%s)' % (U, fn, msg), False,
+                 'read_macro_args aborts an invocation (%s: "%s") for a reason other than a missing "," or ")" (decisions: %s): a well-formed invocation is rejected' % (out[1], msg, ctx.trail), where, {'path': ctx.trail})
             continue
         nret += 1
         facts = {'path': ctx.trail}
@@ -584,6 +779,7 @@ def r_args(P, u, rep):
             stop_final = as_obj(it, as_obj(it, ctx.tok.fields.get('next', 0)).fields.get('next', 0)) if 'next' in ctx.tok.fields else None
         A.ob('R09.5', '%s:%s:rest-is-closing-paren' % (U, fn), isinstance(fin, Obj) and fin is stop_final and any(c[2][0] is fin for c in sk),
              '*rest is not the token at which the last argument stopped, or that token is not checked to be ")": expand_macro continues after the wrong token', where, facts)
+    A.ob('R09.10', '%s:%s:aborts-only-for-missing-comma-or-paren' % (U, fn), True, '', where)
     A.flush()
     if nret == 0:
         rep.undecided('R09.5', '%s:%s:no-return-path' % (U, fn), 'no returning path', where=where)
